@@ -176,6 +176,9 @@ func (c *c19Ctx) genScenario(seed uint64, progs []*c19Prog) *Scenario {
 			if r.Chance(1, 8) {
 				when = r.Range(1, 4)
 			}
+			if st.syscall == "read" && r.Chance(1, 3) {
+				when = r.Range(1, 6) // larger sources take more reads
+			}
 			s.Fault = &Fault{Kind: "strace", Target: st.target, Syscall: st.syscall, When: when, Errno: pick(r, errnos)}
 		}
 		if s.Fault.Kind == "strace" && s.Shape == "d-src-dst" {
